@@ -14,6 +14,19 @@ NEW_TAGS = ["x", "y", "z"]
 KEY = {n: k == "k" for n, k in TAGS}
 
 
+def nest_restricted(rng, e):
+    """An engine-restricted function, sometimes nested as an argument of an UNRESTRICTED function: support
+    has to be judged on the whole expression tree, not on its root."""
+    k = rng.random()
+    if k < 0.25:
+        return ["fn", "add", "*", e, ["lit", 1]]
+    if k < 0.4:
+        return ["fn", "neg", "*", e]
+    if k < 0.5:
+        return ["fn", "add", "*", ["lit", 2], ["fn", "neg", "*", e]]
+    return e
+
+
 class G:
     """Program builder with light-weight tracking of columns/engines of the pool."""
 
@@ -856,6 +869,44 @@ def prog_sql(seed: int, n_ops: int = 8, *, sorts: float = 1.0, selfjoin: float =
         g.emit(["sqlexec", cal])
         g.emit(["sem", cal])
         observed.append(g.join(tb_, ta_, None))
+    if rng.random() < 0.15:
+        # scenario: both operands expose a column the join does NOT equate - a shared non-key column, or a shared
+        # key left out by `max_columns` - and the join predicate reads it: the ON clause and the select list must
+        # take that column from the same operand (the output rows satisfy the predicate)
+        k0 = rng.choice(["a", "b", "d"])
+        if rng.random() < 0.5:
+            shared, cap = "c", None
+        else:
+            shared, cap = rng.choice([c for c in ["a", "b", "d"] if c != k0]), {k0}
+        t1 = g.leaf("e0", cols=sorted({k0, shared}), nrows=rng.choice([3, 4, 5]))
+        t2 = g.leaf("e0", cols=sorted({k0, shared} | set(rng.sample(["x", "z"], rng.choice([0, 1])))),
+                    nrows=rng.choice([3, 4, 5]))
+        f = rng.choice(["lt", "le", "gt", "ge", "eq", "ne"])
+        other = ["lit", rng.choice([0, 1, 2])] if rng.random() < 0.6 else ["ref", k0]
+        pred = ["pfn", f, "*", ["ref", shared], other]
+        if rng.random() < 0.4:
+            t1 = g.apply(t1, ["proj"], frozenset({k0, shared}))
+        j = g.joinmax(t1, t2, cap, pred) if cap is not None else g.join(t1, t2, pred)
+        observed.append(j)
+        if rng.random() < 0.5:
+            observed.append(g.apply(j, ["dedup"], g.cols[j]))
+    if rng.random() < 0.1:
+        # scenario: an expression holding a function only the OTHER engine family supports - at its root or nested
+        # under unrestricted functions - requested inside the database: refused at the call, or else compilable
+        t = g.pick(pred=lambda x: bool(g.cols[x]))
+        if t is not None:
+            e = nest_restricted(rng, ["fn", "o:special", "iter", ["ref", rng.choice(sorted(g.cols[t]))]])
+            tagc = [x for x in NEW_TAGS if x not in g.cols[t]]
+            kind_ = rng.choice(["sel", "sort", "calc", "calc"])
+            if kind_ == "calc" and tagc:
+                op_ = ["calc", tagc[0], e]
+            elif kind_ == "sort":
+                op_ = ["sort", ["term", e, "asc"]]
+            else:
+                op_ = ["sel", ["pfn", "lt", "*", e, ["lit", 1]]]
+            r_ = g.fresh()
+            g.emit(["apply", r_, t, op_, g.opts()])
+            g.emit(["sqlexec", r_])
     allow = ["calc", "dedup", "proj", "sel", "slice"] + (["sort"] if rng.random() < sorts else [])
     for _ in range(n_ops):
         k = rng.random()
@@ -1086,7 +1137,7 @@ def prog_multi(seed: int, n_ops: int = 8, *, three: float = 0.3, prefs: float = 
                 if rng.random() < 0.5:
                     t = g.apply(t, ["slice", rng.choice([0, 1]), rng.choice(["-", 3]), "-"], g.cols[t]) \
                         if rng.random() < 0.6 else g.mat(t)
-                e = ["fn", "o:special", otherk, ["ref", rng.choice(sorted(g.cols[t]))]]
+                e = nest_restricted(rng, ["fn", "o:special", otherk, ["ref", rng.choice(sorted(g.cols[t]))]])
                 tagc = [x for x in NEW_TAGS if x not in g.cols[t]]
                 kind_ = rng.choice(["sel", "sel", "sort", "calc"])
                 if kind_ == "calc" and tagc:
@@ -1097,6 +1148,26 @@ def prog_multi(seed: int, n_ops: int = 8, *, three: float = 0.3, prefs: float = 
                     op_ = ["sel", ["pfn", "lt", "*", e, ["lit", 1]]]
                 g.emit(["apply", g.fresh(), t, op_, g.opts(rng.choice(prefs_), rng.random() < 0.7, rng.random() < 0.4,
                                                             rng.random() < 0.3)])
+    if rng.random() < 0.1:
+        # scenario: a SELECTIVE join (shared key) with a fixed relation of AT MOST ONE row - a one-row table, or the
+        # first row of a sorted table - requested from a relation that was cut by a Slice downstream of a transfer; the
+        # join prefers the source engine, and back-tracking must not carry it upstream of the count-dependent Slice
+        # (joining filters rows even when it cannot multiply them)
+        k0 = rng.choice(["a", "b", "d"])
+        cs = sorted({k0} | set(rng.sample(["a", "b", "d"], rng.choice([0, 1]))))
+        src = g.leaf("e0", cols=cs, nrows=rng.choice([3, 4, 5]))
+        cur = g.transfer(src, "e1")
+        cur = g.apply(cur, ["sort", *[["term", ["ref", c], rng.choice(["asc", "desc"])] for c in cs]], g.cols[cur])
+        cur = g.apply(cur, ["slice", rng.choice([0, 0, 1]), rng.choice([1, 2, 2]), "-"], g.cols[cur])
+        fcols = sorted({k0} | set(rng.sample(["x", "z"], rng.choice([0, 1]))))
+        if rng.random() < 0.5:
+            fixed = g.leaf("e0", cols=fcols, nrows=1, bounds="exact")
+        else:
+            fixed = g.leaf("e0", cols=fcols, nrows=rng.choice([2, 3]))
+            fixed = g.apply(fixed, ["sort", ["term", ["ref", k0], rng.choice(["asc", "desc"])]], g.cols[fixed])
+            fixed = g.apply(fixed, ["slice", 0, 1, "-"], g.cols[fixed])
+        for tr in (False, True):
+            observed.append(g.join(cur, fixed, None, bt=True, tr=tr))
     if rng.random() < 0.1:
         # scenario: a materialization INSIDE the database that already holds a payload (an earlier `process` attached it) is
         # used again - as an operand of a join or a chain with a relation transferred into the database, or under another
@@ -1263,7 +1334,7 @@ def prog_multi(seed: int, n_ops: int = 8, *, three: float = 0.3, prefs: float = 
                         and not (g.leaves_of.get(u, frozenset()) & g.leaves_of.get(t, frozenset()))]
             if partners:
                 otherk = "sql" if g.kind[g.eng[t]] == "iter" else "iter"
-                e = ["fn", "o:special", otherk, ["ref", rng.choice(sorted(g.cols[t]))]]
+                e = nest_restricted(rng, ["fn", "o:special", otherk, ["ref", rng.choice(sorted(g.cols[t]))]])
                 g.emit(["join", g.fresh(), t, rng.choice(partners), ["pfn", "lt", "*", e, ["lit", 1]],
                         rng.choice(["T", "F"]), rng.choice(["T", "F"])])
     for r in dict.fromkeys(observed):
@@ -1604,6 +1675,7 @@ def prog_illformed(seed: int, n_ops: int = 5) -> G:
                     g.apply(t, ["sel", ["pfn", "lt", "*", free, ["lit", 1]]], cols)
                 elif tagc0:
                     g.apply(t, ["calc", tagc0[-1], free], cols | {tagc0[-1]})
+            e = nest_restricted(rng, e)
             tagc = [x for x in NEW_TAGS if x not in cols]
             # a join (inside ONE engine) whose predicate that engine does not support
             partners = [u for u in pool if g.eng[u] == g.eng[t] and not (g.cols[u] & cols & NONKEY)]
